@@ -112,6 +112,9 @@ class Base:
     def maps(self, tier, seed):
         for m in setmaps(["a", "b"], [0, 1, 3]):
             yield m, ["a", "b"]
+        # platform names where one is a substring of the other (membership vs substring tests)
+        for m in setmaps(["gpu", "gpu-fp64"], [0, 1, 3]):
+            yield m, ["gpu", "gpu-fp64"]
         if tier == "thorough":
             for m in setmaps(PLATS3, [0, 1, 2]):
                 if len(m) <= 5:
